@@ -1392,7 +1392,7 @@ def c10(tier, seed):
 def _buffer_schedules(G, ws="{1, 2}", workers=8):
     cfgp = os.path.join(tlc.SPECS, "BufferSize_run.cfg")
     with open(cfgp, "w") as f:
-        f.write(f"SPECIFICATION Spec\nCONSTANTS\n  G = {G}\n  Ws = {ws}\n  MaxN = {G + 3}\nINVARIANT FormulaSafe\nINVARIANT Emit\nCHECK_DEADLOCK FALSE\n")
+        f.write(f"SPECIFICATION Spec\nCONSTANTS\n  G = {G}\n  Ws = {ws}\n  MaxN = {G + 3}\nINVARIANT FormulaSafe\nINVARIANT Monotone\nINVARIANT Emit\nCHECK_DEADLOCK FALSE\n")
     try:
         r = tlc.run_tlc("BufferSize", cfg="BufferSize_run.cfg", workers=workers, timeout=3000, heap="6g")
     finally:
@@ -1456,19 +1456,93 @@ def buffer_rule_job(job):
             res.append(dict(real=real))
         except Exception as e:  # noqa
             res.append(dict(error=repr(e)[:300]))
-    return dict(results=res)
+    # two consumers (C, D) of the same producer: the producer's ring as get_output_buffer() really allocates it
+    import jax.numpy as jnp
+
+    class _Fake:
+        def init_output(self, rng=None, graph_state=None):
+            return jnp.zeros(())
+
+    pairs = []
+    for a, b in job.get("pairs", []):
+        pw, G = a["pw"], len(a["pw"])
+        steps = (G + 1) // 2
+        slots = {}
+        wr_before, written = [], -1
+        for p in range(G):
+            wr_before.append(written)
+            if pw[p]:
+                written += 1
+        for g in (0, 1):
+            z = onp.zeros((1, steps))
+            run_p, seq_p = onp.zeros((1, steps), bool), onp.zeros((1, steps), int)
+            for p in range(g, G, 2):
+                if pw[p]:
+                    run_p[0, p // 2], seq_p[0, p // 2] = True, wr_before[p] + 1
+            slots[f"sP_{g}"] = base.SlotVertex(seq=seq_p, ts_start=z, ts_end=z, windows={}, run=run_p, kind="P", generation=g)
+            for kind, s in (("C", a), ("D", b)):
+                last, W = s["last"], s["W"]
+                run_c, seq_c, win = onp.zeros((1, steps), bool), onp.zeros((1, steps), int), onp.zeros((1, steps, W), int)
+                for p in range(g, G, 2):
+                    if last[p] != -99:
+                        run_c[0, p // 2] = True
+                        seq_c[0, p // 2] = sum(1 for q in range(p) if last[q] != -99)
+                        win[0, p // 2, :] = [max(last[p] - W + j + 1, -1) for j in range(W)]
+                slots[f"s{kind}_{g}"] = base.SlotVertex(seq=seq_c, ts_start=z, ts_end=z,
+                                                        windows={"P": base.Window(seq=win, ts_sent=onp.zeros(win.shape), ts_recv=onp.zeros(win.shape))},
+                                                        run=run_c, kind=kind, generation=g)
+        try:
+            buf = base.Timings(slots=slots).get_output_buffer({"P": _Fake(), "C": _Fake(), "D": _Fake()})
+            pairs.append(dict(P=int(buf["P"].shape[0]), C=int(buf["C"].shape[0]), D=int(buf["D"].shape[0])))
+        except AssertionError as e:
+            pairs.append(dict(refused=repr(e)[:200]))
+        except Exception as e:  # noqa
+            pairs.append(dict(error=repr(e)[:300]))
+    return dict(results=res, pairs=pairs)
 
 
 def c08_buffer_rule(rep, quick):
     scheds, st = _buffer_schedules(4 if quick else 5)
     rep.add_tlc(st)
     chunks = [scheds[i::16] for i in range(16)]
-    jobs = [dict(kind="pyfunc", module="harness.checks.smallchecks", func="buffer_rule_job", id=f"c08rule{i}", schedules=ch, timeout=1800) for i, ch in enumerate(chunks) if ch]
+    # pairs of consumer schedules over the same writes (several consumers of one producer)
+    rng = random.Random(rep.seed)
+    bypw = {}
+    for s in scheds:
+        bypw.setdefault(json.dumps(s["pw"]), []).append(s)
+    groups = [g for g in bypw.values() if len(g) >= 2]
+    npairs = 40 if quick else 250
+    pchunks = [[tuple(rng.sample(rng.choice(groups), 2)) for _ in range(npairs)] if groups else [] for _ in range(16)]
+    jobs = [dict(kind="pyfunc", module="harness.checks.smallchecks", func="buffer_rule_job", id=f"c08rule{i}", schedules=ch, pairs=pchunks[i], timeout=1800)
+            for i, ch in enumerate(chunks) if ch]
     results = common.run_jobs(jobs)
-    stats = dict(schedules=len(scheds), model_states=st["distinct"], equal_to_rule=0, refused_by_rex=0, tight=0, drift=0, unsafe=0)
-    for res, ch in zip(results, [c for c in chunks if c]):
+    stats = dict(schedules=len(scheds), model_states=st["distinct"], equal_to_rule=0, refused_by_rex=0, tight=0, drift=0, unsafe=0,
+                 two_consumer_pairs=0, two_consumer_refused=0)
+    for res, ch, pch in zip(results, [c for c in chunks if c], [pchunks[i] for i, c in enumerate(chunks) if c]):
         if not res.get("ok"):
             raise common.MachineryError(res.get("error", "")[-3000:])
+        for (a, b), r in zip(pch, res.get("pairs", [])):
+            rep.cov["evaluations"] += 1
+            if "error" in r:
+                raise common.MachineryError(f"get_output_buffer raised on a synthetic Timings: {r['error']} for {a} {b}")
+            raw = [x["rex"] for x in (a, b) if x["rex"] != -99]
+            want = max(raw) if raw else None
+            if "refused" in r:
+                stats["two_consumer_refused"] += 1
+                if want is not None and want >= 1:
+                    rep.violation(dict(kind="buffer_two_consumers_refused"), dict(kind="buffer_rule_pair", a=a, b=b, real=r),
+                                  text=f"get_output_buffer() refuses a producer with two consumers whose connections need {want}: {r['refused']}")
+                continue
+            stats["two_consumer_pairs"] += 1
+            need = max(a["safe"], b["safe"])      # NodeN is safe for both (Monotone); anything below the larger SafeN is unsafe for that consumer
+            if r["P"] < need or r["C"] < 1 or r["D"] < 1:
+                rep.violation(dict(kind="buffer_two_consumers_too_small"), dict(kind="buffer_rule_pair", a=a, b=b, real=r),
+                              text=f"get_output_buffer() allocates {r['P']} slots for a producer whose two consumers need {a['safe']} and {b['safe']}: writes at {a['pw']}, "
+                                   f"consumer C newest entries {a['last']} window {a['W']}, consumer D newest entries {b['last']} window {b['W']}")
+            elif want is not None and r["P"] != max(want, 1):
+                stats["drift"] += 1
+            else:
+                rep.nontrivial(json.dumps([a, b], sort_keys=True))
         for s, r in zip(ch, res["results"]):
             rep.cov["evaluations"] += 1
             rep.cov["traces_validated_against_impl"] += 1
